@@ -39,6 +39,9 @@ def make_table(n, target):
         return tt_full(make_tt(n, target['rho'], target['tseed']))
     if kind == 'rand':
         return gen(target['tseed']).standard_normal(n)
+    if kind == 'sparse':
+        g = gen(target['tseed'])
+        return g.standard_normal(n) * (g.random(n) < target['density'])
     if kind == 'sum':
         idx = np.indices(n)
         return 1.0 + idx.sum(axis=0).astype(float)
@@ -62,13 +65,17 @@ def unfolding_ranks(T, tol=1e-10):
     return ranks, cond
 
 
+class ObjectiveFailure(Exception):
+    """What the simulated user function raises when it fails (crash of the objective service)."""
+
+
 class Objective:
     """Stub service behind cross's `f`: exact table lookup, per-call virtual latency,
     `None` at a scheduled call; checks the index-domain and budget invariants on
     every call and logs every batch."""
 
     def __init__(self, table, events, none_at=None, m_max=None, latency=None,
-                 call_cap=5000, ret_list=False, ret_f32=False):
+                 call_cap=5000, ret_list=False, ret_f32=False, memo=False, raise_at=None):
         self.T = table
         self.n = table.shape
         self.events = events
@@ -78,6 +85,9 @@ class Objective:
         self.call_cap = call_cap
         self.ret_list = ret_list
         self.ret_f32 = ret_f32
+        self.memo = {} if memo else None     # a memoising service hands out the very same array when a batch recurs
+        self.raise_at = raise_at
+        self.raised = False
         self.calls = 0
         self.rows = 0                  # rows for which values were returned
         self.batches = []              # every batch received (copies)
@@ -122,9 +132,18 @@ class Objective:
             self.none_fired = True
             self.events.append(('f', self.calls, len(I), 'None'))
             return None
+        if self.raise_at is not None and self.calls == self.raise_at:
+            self.raised = True
+            self.events.append(('f', self.calls, len(I), 'raise'))
+            raise ObjectiveFailure('objective failed at call %d' % self.calls)
         self.rows += len(I)
         self.served.append(Ic)
         self.events.append(('f', self.calls, len(I), 'values'))
+        if self.memo is not None:
+            key = Ic.tobytes()
+            if key not in self.memo:
+                self.memo[key] = self.T[tuple(I.T)]
+            return self.memo[key]
         y = self.T[tuple(I.T)]
         if self.ret_f32:
             return y.astype(np.float32)
@@ -135,7 +154,7 @@ class Monitor:
     """Sweep callback seam: snapshots tensor and info at every sweep, checks
     invariants at the callback instant, returns True at the scheduled sweep, may jump the clock."""
 
-    def __init__(self, events, cb_at=None, sweep_cap=64, jumps=None, keep_tensors=True, hook=None):
+    def __init__(self, events, cb_at=None, sweep_cap=64, jumps=None, keep_tensors=True, hook=None, cont=None):
         self.events = events
         self.cb_at = cb_at
         self.sweep_cap = sweep_cap
@@ -144,6 +163,7 @@ class Monitor:
         self.snaps = []       # dict(sweep, Y, info, Yold, ranks)
         self.fired = False
         self.hook = hook
+        self.cont = cont          # what the callback returns to say "go on": None, False or 0
 
     def __call__(self, Y, info, opts):
         s = len(self.snaps) + 1
@@ -172,7 +192,7 @@ class Monitor:
         if ret:
             self.fired = True
         self.events.append(('cb', s, bool(ret)))
-        return True if ret else None
+        return True if ret else self.cont
 
 
 @contextlib.contextmanager
